@@ -335,6 +335,9 @@ func Driver() int {
 		if merged.Note != "" {
 			ev.Coverage["note"] = merged.Note
 		}
+		if info.Level == "other" {
+			ev.Coverage["explanation"] = info.Rule
+		}
 		evDir := filepath.Join(verifDir, "evidence")
 		os.MkdirAll(evDir, 0o755)
 		if err := writeJSON(filepath.Join(evDir, prop+".json"), ev); err != nil {
